@@ -1216,6 +1216,12 @@ fn precision_only(a: &Answer, b: &Answer) -> bool {
     }
 }
 
+/// both answers are ambiguous (they differ in guidance only): after an interrupted solve the SLG table
+/// holds more stored answers than a fresh one does when `make_solution` reads it (F26b)
+fn both_ambig(a: &Answer, b: &Answer) -> bool {
+    matches!((a, b), (Ok(Some(Solution::Ambig(_))), Ok(Some(Solution::Ambig(_)))))
+}
+
 fn is_mixed(s: &Subject) -> bool {
     s.text.contains("#[coinductive]") && (s.text.contains("impl Tind") || !s.text.contains("trait Tind"))
 }
@@ -1543,7 +1549,7 @@ pub fn oracle_c11(ctx: &Ctx, out: &mut Out, s: &Subject, rng: &mut Rng) {
                 let r3 = solve_on(&mut *solver, db, g);
                 out.evaluations_extra += 1;
                 if r3 != fresh[gi] {
-                    let c = if plain_history_differs(choice, db, &[g, g, g], &fresh[gi]) { history_classifier(name, s, &r3, &fresh[gi]) } else if name == "slg" { "slg_answer_after_interrupt" } else if precision_only(&r3, &fresh[gi]) { "recursive_ambig_precision_depends_on_history" } else { "recursive_cache_after_interrupt" };
+                    let c = if plain_history_differs(choice, db, &[g, g, g], &fresh[gi]) { history_classifier(name, s, &r3, &fresh[gi]) } else if name == "slg" && both_ambig(&r3, &fresh[gi]) { "slg_guidance_precision_depends_on_table_completion" } else if name == "slg" { "slg_answer_after_interrupt" } else if precision_only(&r3, &fresh[gi]) { "recursive_ambig_precision_depends_on_history" } else { "recursive_cache_after_interrupt" };
                     fail_once(out, &mut seen, &format!("{}: after an interrupted solve (callback false: {}) `{}` is answered {} but a fresh solver answers {}", name, sname, low.goals[gi].0, render(&r3), render(&fresh[gi])), &input("; then solve"), c);
                     continue;
                 }
@@ -1551,7 +1557,7 @@ pub fn oracle_c11(ctx: &Ctx, out: &mut Out, s: &Subject, rng: &mut Rng) {
                 let r4 = solve_on(&mut *solver, db, &low.goals[other].1);
                 out.evaluations_extra += 1;
                 if r4 != fresh[other] {
-                    let c = if plain_history_differs(choice, db, &[g, g, g, &low.goals[other].1], &fresh[other]) { history_classifier(name, s, &r4, &fresh[other]) } else if name == "slg" { "slg_answer_after_interrupt" } else if precision_only(&r4, &fresh[other]) { "recursive_ambig_precision_depends_on_history" } else { "recursive_cache_after_interrupt" };
+                    let c = if plain_history_differs(choice, db, &[g, g, g, &low.goals[other].1], &fresh[other]) { history_classifier(name, s, &r4, &fresh[other]) } else if name == "slg" && both_ambig(&r4, &fresh[other]) { "slg_guidance_precision_depends_on_table_completion" } else if name == "slg" { "slg_answer_after_interrupt" } else if precision_only(&r4, &fresh[other]) { "recursive_ambig_precision_depends_on_history" } else { "recursive_cache_after_interrupt" };
                     fail_once(out, &mut seen, &format!("{}: after an interrupted solve of `{}` (callback false: {}) the goal `{}` is answered {} but a fresh solver answers {}", name, low.goals[gi].0, sname, low.goals[other].0, render(&r4), render(&fresh[other])), &input(&format!("; then solve {}", low.goals[other].0)), c);
                 }
             }
